@@ -1,6 +1,6 @@
 (* C37 -- proofs about the SHA-3 sponge (lengths, padding) and ChaCha20-Poly1305 (decrypt after encrypt) *)
 From Coq Require Import Arith NArith ZArith List Bool Lia.
-From V Require Import C37.Model C37.Proofs C37.ShaProofs C37.Keccak C37.Chacha.
+From V Require Import C37.Model C37.Proofs C37.ShaProofs C37.Keccak C37.Chacha C37.MoreHashes.
 Import ListNotations.
 Open Scope N_scope.
 
@@ -206,3 +206,75 @@ Qed.
 
 Lemma check_hash3_ok : forall n o cs out, check_hash3 n o cs out = true <-> out = data_hash3 n o cs.
 Proof. intros. unfold check_hash3. rewrite olist_eqb_eq. split; intro; subst; reflexivity. Qed.
+
+(* ------------------------------------------------------------------ BLAKE2 and RIPEMD-160: output lengths, padding *)
+Lemma b2_compress_length : forall c h blk t last, length (b2_compress c h blk t last) = 8%nat.
+Proof. intros. unfold b2_compress. rewrite map_length, seq_length. reflexivity. Qed.
+
+Lemma b2_blocks_length : forall c n h t m, length (b2_blocks c n h t m) = 8%nat.
+Proof.
+  intros c n. induction n as [|k IH]; intros h t m; cbn [b2_blocks].
+  - apply b2_compress_length.
+  - apply IH.
+Qed.
+
+Lemma blake2_length : forall c nn m, (nn <= 8 * b2_wb c)%nat -> length (blake2 c nn m) = nn.
+Proof.
+  intros c nn m H. unfold blake2. apply firstn_length_le.
+  rewrite (flat_map_length_const _ _ (b2_wb c)) by (intro; apply le_bytes_length).
+  rewrite b2_blocks_length. lia.
+Qed.
+
+Lemma blake2_bytes : forall c nn m, bytes (blake2 c nn m).
+Proof. intros. unfold blake2. apply firstn_bytes. apply flat_map_bytes. intro. apply le_bytes_bytes. Qed.
+
+Lemma ripemd160_length : forall m, length (ripemd160 m) = 20%nat.
+Proof.
+  intro m. unfold ripemd160. destruct (rmd_blocks _ rmd_iv (rmd_pad m)) as [[[[h0 h1] h2] h3] h4].
+  rewrite (flat_map_length_const _ _ 4%nat) by (intro; apply le_bytes_length). reflexivity.
+Qed.
+
+Lemma ripemd160_bytes : forall m, bytes (ripemd160 m).
+Proof.
+  intro m. unfold ripemd160. destruct (rmd_blocks _ rmd_iv (rmd_pad m)) as [[[[h0 h1] h2] h3] h4].
+  apply flat_map_bytes. intro. apply le_bytes_bytes.
+Qed.
+
+Lemma rmd_pad_blocks : forall m,
+  (length (rmd_pad m) mod 64 = 0 /\ length m + 9 <= length (rmd_pad m) < length m + 9 + 64)%nat /\
+  firstn (length m + 1) (rmd_pad m) = m ++ [0x80].
+Proof.
+  intro m. split.
+  - unfold rmd_pad. rewrite !app_length, repeat_length, le_bytes_length. cbn [length].
+    destruct (pad_zeros_mod 64 8 (length m) ltac:(lia)) as [P1 P2].
+    split; [|lia].
+    replace (length m + (1 + ((64 - (length m + 1 + 8) mod 64) mod 64 + 8)))%nat
+      with (length m + 1 + (64 - (length m + 1 + 8) mod 64) mod 64 + 8)%nat by lia.
+    exact P1.
+  - unfold rmd_pad.
+    replace (length m + 1)%nat with (length (m ++ [0x80%N]) + 0)%nat by (rewrite app_length; cbn [length]; lia).
+    rewrite app_assoc. rewrite firstn_app_2. cbn [firstn]. apply app_nil_r.
+Qed.
+
+Lemma xalg_hash_length : forall a m, length (xalg_hash a m) = xalg_outlen a.
+Proof.
+  intros [] m; cbn [xalg_hash xalg_outlen].
+  - apply blake2_length. cbn. lia.
+  - apply blake2_length. cbn. lia.
+  - apply ripemd160_length.
+Qed.
+
+Lemma xalg_hash_bytes : forall a m, bytes (xalg_hash a m).
+Proof. intros [] m; cbn [xalg_hash]; [apply blake2_bytes | apply blake2_bytes | apply ripemd160_bytes]. Qed.
+
+Lemma data_hashx_shape : forall a octet codes h,
+  data_hashx a octet codes = Some h -> length h = (2 * xalg_outlen a)%nat /\ forallb is_lower_hex h = true.
+Proof.
+  intros a octet codes h. unfold data_hashx.
+  destruct (data_bytes octet codes) as [bs|]; [|discriminate].
+  intro E. inversion E; subst; clear E. rewrite hex_encode_length, xalg_hash_length.
+  split; [reflexivity | apply hex_encode_lower; apply xalg_hash_bytes].
+Qed.
+
+Lemma check_hashx_ok : forall a o cs out, check_hashx a o cs out = true <-> out = data_hashx a o cs.
+Proof. intros. unfold check_hashx. rewrite olist_eqb_eq. split; intro; subst; reflexivity. Qed.
